@@ -226,4 +226,146 @@ def run_case(sc: Dict[str, Any]) -> Outcome:
     return out
 
 
+# ---------------------------------------------------------------------------------------------------------------
+# sync task functions through a REAL thread pool (the virtual-time harness runs them inline): the outcome has to travel
+# from the pool's future into the event loop's future.  No wall-clock limit decides anything here: completion is
+# awaited by posting barrier jobs to the single pool thread (FIFO behind the task's job) and yielding to the loop.
+
+POOL_OUTS = ["ret", "ret", "ValueError", "KeyError", "MyErr", "StopIteration", "StopIteration_value", "StopAsyncIteration",
+             "KeyboardInterrupt", "SystemExit", "MyBase", "NoResult", "RecursionError", "TimeoutError", "next_on_empty"]
+
+
+def pool_cases() -> Any:
+    return st.fixed_dictionaries({"pool": st.just(True), "outs": st.lists(st.sampled_from(POOL_OUTS), min_size=1, max_size=4),
+                                  "A": st.integers(1, 2), "process_via": st.sampled_from(["callback", "callback", "inmemory"])})
+
+
+class _PoolMyErr(Exception):
+    pass
+
+
+class _PoolMyBase(BaseException):
+    pass
+
+
+def _pool_raise(kind: str, k: int) -> Any:
+    from taskiq.exceptions import NoResultError
+
+    if kind == "ret":
+        return {"v": k}
+    if kind == "next_on_empty":
+        return next(iter([]))            # the everyday way a plain function ends up raising StopIteration
+    if kind == "StopIteration_value":
+        raise StopIteration({"v": k})
+    exc = {"ValueError": ValueError, "KeyError": KeyError, "MyErr": _PoolMyErr, "StopIteration": StopIteration, "StopAsyncIteration": StopAsyncIteration,
+           "KeyboardInterrupt": KeyboardInterrupt, "SystemExit": SystemExit, "MyBase": _PoolMyBase, "NoResult": NoResultError,
+           "RecursionError": RecursionError, "TimeoutError": TimeoutError}[kind]
+    raise exc() if kind == "NoResult" else exc("boom")      # the no-result signal takes no arguments
+
+
+def run_pool_case(c: Dict[str, Any]) -> Outcome:
+    import asyncio
+    from concurrent.futures import ThreadPoolExecutor
+
+    from taskiq import InMemoryBroker
+    from taskiq.kicker import AsyncKicker
+    from taskiq.receiver import Receiver
+    from taskiq.result_backends.dummy import DummyResultBackend  # noqa: F401  (import check only)
+    from taskiq.brokers.inmemory_broker import InmemoryResultBackend
+
+    out = Outcome()
+    out.clauses_checked = ["C07.a", "C07.b", "C07.d"]
+    outs = c["outs"]
+    saves: List[Any] = []
+    hung: List[int] = []
+    loop_errors: List[str] = []
+
+    class RB(InmemoryResultBackend):
+        async def set_result(self, task_id: str, result: Any) -> None:
+            saves.append((task_id, result))
+            await super().set_result(task_id, result)
+
+    async def main() -> None:
+        ex = ThreadPoolExecutor(max_workers=1)
+        try:
+            b = InMemoryBroker()
+            b.result_backend = RB()
+
+            def stask(k: int) -> Any:
+                return _pool_raise(outs[k], k)
+
+            stask.__module__ = __name__
+            b.register_task(stask, task_name="pool.stask")
+            r = Receiver(b, executor=ex, max_async_tasks=c["A"], run_startup=False)
+            for k in range(len(outs)):
+                m = b.formatter.dumps(AsyncKicker("pool.stask", b, {}).with_task_id(f"id{k}")._prepare_message(k)).message
+                t = asyncio.ensure_future(r.callback(m))
+                for _ in range(25):
+                    if t.done():
+                        break
+                    await asyncio.get_running_loop().run_in_executor(ex, int)      # barrier: the pool thread is past the task's job
+                    await asyncio.sleep(0)
+                if not t.done():
+                    hung.append(k)
+                    t.cancel()
+                    try:
+                        await t
+                    except BaseException:  # noqa: BLE001
+                        pass
+                elif t.exception() is not None:
+                    out.add("C07.d", f"processing message {k} (sync function, outcome {outs[k]}) raised {type(t.exception()).__name__}: {t.exception()}")
+        finally:
+            ex.shutdown(wait=True)
+
+    loop = asyncio.new_event_loop()
+    loop.set_exception_handler(lambda l, ctx: loop_errors.append(str(ctx.get("exception") or ctx.get("message"))))
+    try:
+        loop.run_until_complete(main())
+    finally:
+        loop.close()
+    for k in hung:
+        out.add("C07.a", f"message {k}: the sync task function finished in the pool thread (outcome {outs[k]}) but its execution never completed - no result, the slot "
+                         f"is held forever ({short(loop_errors[:1], 160)})")
+    for k, o in enumerate(outs):
+        if k in hung:
+            continue
+        mine = [r_ for tid, r_ in saves if tid == f"id{k}"]
+        if o == "NoResult":
+            if mine:
+                out.add("C07.a", f"message {k}: a result was stored for the no-result signal")
+            continue
+        if len(mine) != 1:
+            out.add("C07.a", f"message {k} (sync, outcome {o}): {len(mine)} results stored")
+            continue
+        r_ = mine[0]
+        if o == "ret":
+            if r_.is_err or r_.return_value != {"v": k}:
+                out.add("C07.b", f"message {k}: returned {{'v': {k}}} but stored is_err={r_.is_err} value={short(r_.return_value, 80)}")
+        else:
+            # a StopIteration cannot cross a future: like Python itself does for coroutines (PEP 479) it may arrive as a
+            # RuntimeError caused by it; every other class arrives as raised
+            want = {"next_on_empty": "StopIteration", "StopIteration_value": "StopIteration", "MyErr": "_PoolMyErr", "MyBase": "_PoolMyBase"}.get(o, o)
+            got = type(r_.error).__name__ if r_.error is not None else None
+            ok = got == want or (want == "StopIteration" and got == "RuntimeError" and isinstance(getattr(r_.error, "__cause__", None), StopIteration))
+            if not r_.is_err or not ok:
+                out.add("C07.b", f"message {k}: the sync function raised {want} but the stored result has is_err={r_.is_err} error={got}")
+    stopit = any(o in ("StopIteration", "StopIteration_value", "next_on_empty") for o in outs)
+    out.nontrivial = bool(any(o not in ("ret", "ValueError", "KeyError") for o in outs))
+    out.classes = ["real_thread_pool"] + (["stop_iteration_from_sync_function"] if stopit else []) + sorted({"pool_out=" + o for o in outs})
+    out.trace = {"outs": outs, "hung": hung, "saves": len(saves)}
+    return out
+
+
+_base_parts, _base_run = parts, run_case
+
+
+def parts(tier: str) -> List[Part]:  # type: ignore[no-redef]
+    n = 1500 if tier == "thorough" else 120
+    return _base_parts(tier) + [Part("sync_pool", "given", shards=4, examples=n, strategy=pool_cases, soft_deadline_s=1500 if tier == "thorough" else 100)]
+
+
+def run_case(sc: Dict[str, Any]) -> Outcome:  # type: ignore[no-redef]
+    return run_pool_case(sc) if sc.get("pool") else _base_run(sc)
+
+
 SELFTEST_CASES = []
